@@ -89,7 +89,14 @@ class C02(Check):
         kinds = rng.choice([("optical", "radar", "adv_radar"), ("radar", "adv_radar"), ("optical",), ("optical", "adv_radar")])
         cfg = gen.network_case(rng, nsteps=rng.randrange(2, 6), n_sensors=rng.randrange(1, 5), n_targets=rng.randrange(1, 6), kinds=kinds, model="two_body",
                                coarse=rng.random() < 0.5, space_sensor_p=0.3, geo_p=0.55, placed_p=0.9, two_engines_p=0.15, out_mult=1, narrow_fov=rng.random() < 0.2,
-                               slow_slew=rng.random() < 0.3)
+                               slow_slew=rng.random() < 0.3, edge_p=0.4)
+        if rng.random() < 0.4:
+            # estimate errors of kilometres so that the estimate and the truth can sit on opposite sides of a limit
+            cfg["noise"]["init_position_std_km"] = rng.choice([1.0, 5.0, 20.0])
+            cfg["noise"]["init_velocity_std_km_p_sec"] = rng.choice([1e-4, 1e-3])
+            for e in cfg["engines"]:
+                for s in e["sensors"]:
+                    s["sensor"]["covariance"] = gen.sensor_block(s["sensor"]["type"], coarse=True)["covariance"]
         for e in cfg["engines"]:
             for s in e["sensors"]:
                 if s["sensor"]["type"] == "optical" and rng.random() < 0.7:
